@@ -158,7 +158,8 @@ def iv_pair(acc, mods, kind, fa, fb, z=None, native=True):
         return
     key = (lambda x: (x.year, x.month, x.day)) if kind == "date" else (lambda x: (obs.fields(x), obs.offset_s(x)))
     addkw = comp if kind != "date" else {k: comp[k] for k in ("years", "months", "weeks", "days")}
-    for lbl, fn in (("a+(b-a)", lambda: a + iv), ("add(components)", lambda: a.add(**addkw))):
+    for lbl, fn in (("a+(b-a)", lambda: a + iv), ("add(components)", lambda: a.add(**addkw)), ("(b-a)+a", lambda: iv + a),
+                    ("Duration(components)+a", lambda: pendulum.Duration(**comp) + a), ("a+Duration(components)", lambda: a + pendulum.Duration(**comp))):
         try:
             r = fn()
         except Exception as e:  # noqa: BLE001
